@@ -7,7 +7,7 @@
     polynomial [leg_gram_poly m l l'] of degree <= l + l', and for a quadrature rule that
     integrates the monomials x^n, n <= D, like a linear functional Int, the discrete Gram entry is
     Int of that polynomial whenever l + l' <= D: it does not depend on the nodes. *)
-From Dino Require Import Base.Ops Base.Sums Model.SHT Thm.SHT Gen.Legendre Model.Legendre Thm.Legendre.
+From Dino Require Import Base.Ops Base.Sums Model.SHT Thm.SHT Gen.Legendre Gen.DerivExprs Model.Legendre Thm.Legendre.
 Local Open Scope F_scope.
 
 Section Poly.
@@ -247,3 +247,117 @@ Proof.
   intros a l l' Ha H1 H2 H3 H4.
   apply (legendre_orth_deg_from_functional sq J x y w mom (exact_degree spacing J) Hrule M L HML Hy); auto; try lia.
 Qed.
+
+(** *** (C02) the derivative relation of the basis functions from the three-term recurrence.
+    Abstract form: ANY sequences Q k, dQ k (values at a point t of q_{m,m+k} and of its formal
+    derivative) that satisfy the code's three-term recurrence in normalised form (HR0, HR) and its
+    formal derivative (HdR0, HdR: product rule on x * q), with eps obeying
+    1 + (2l-1) eps_l^2 = (2l+3) eps_{l+1}^2 (a consequence [eps2_key] of the closed form
+    eps^2 = a2_expr 1 l m of Gen/DerivExprs.v), satisfy
+      (1 - t^2) dQ_k - m t Q_k = (l+1) eps_l Q_{k-1} - l eps_{l+1} Q_{k+1},   l = m + k,
+    i.e. (1-x^2) d/dx P_l^m = (l+1) eps_l P_{l-1}^m - l eps_{l+1} P_{l+1}^m: exactly the weights
+    d1_wm = (l+1) a, d1_wp = -l b of Grid.cos_lat_d_dlat.
+    NOT done (hence the name ..._partial in Prop/C02.v): the instantiation Q k := peval (leg_q ..) t,
+    dQ k := peval (pderiv (leg_q ..)) t, which needs the Leibniz rule of [pderiv] on [pmul]. *)
+Section DerivRel.
+  Context {F : Type} {o : Ops F} {Fc : FieldC o}.
+  Add Field FFdr : (field_c : FieldTh o).
+
+  Lemma fsub0 (a b : F) : a = b -> a - b = 0.
+  Proof. intros ->. ring. Qed.
+  Lemma fsub0_inv (a b : F) : a - b = 0 -> a = b.
+  Proof. intros H. transitivity (a - b + b); [ring|]. rewrite H. ring. Qed.
+  Lemma zeros6 (a b c d f g : F) : a * 0 - b * 0 + c * 0 - d * 0 + f * 0 + g * 0 = 0.
+  Proof. ring. Qed.
+  Lemma fmul_cancel_l (e a b : F) : e <> 0 -> e * a = e * b -> a = b.
+  Proof.
+    intros He H. transitivity (e * a / e); [field; exact He|]. rewrite H. field. exact He.
+  Qed.
+  Lemma fdiv_cross (a c u v : F) : u <> 0 -> v <> 0 -> a * v = c * u -> a / u = c / v.
+  Proof.
+    intros Hu Hv H. transitivity (a * v / (u * v)); [field; split; assumption|].
+    rewrite H. field. split; assumption.
+  Qed.
+
+  (** 1 + (2l-1) eps^2(m,l) = (2l+3) eps^2(m,l+1) for the closed form eps^2 = a2_expr 1 l m *)
+  Lemma a2_expr_closed (l m : F) : a2_expr 1 l m = (l * l - m * m) / (lit 4 * (l * l) - 1).
+  Proof. unfold a2_expr. cbn [lit]. f_equal; ring. Qed.
+  Lemma eps2_key_atoms (l N1 N2 u v : F) : u <> 0 -> v <> 0 ->
+    (u + ((1 + 1) * l - 1) * N1) * v = ((1 + 1) * l + 1 + 1 + 1) * N2 * u ->
+    1 + ((1 + 1) * l - 1) * (N1 / u) = ((1 + 1) * l + 1 + 1 + 1) * (N2 / v).
+  Proof.
+    intros Hu Hv H.
+    transitivity ((u + ((1 + 1) * l - 1) * N1) / u); [field; exact Hu|].
+    transitivity ((((1 + 1) * l + 1 + 1 + 1) * N2) / v); [|field; exact Hv].
+    now apply fdiv_cross.
+  Qed.
+  Lemma eps2_key (l m : F) :
+    lit 4 * (l * l) - 1 <> 0 -> lit 4 * ((l + 1) * (l + 1)) - 1 <> 0 ->
+    1 + ((1 + 1) * l - 1) * a2_expr 1 l m = ((1 + 1) * l + 1 + 1 + 1) * a2_expr 1 (l + 1) m.
+  Proof.
+    intros H1 H2. rewrite !a2_expr_closed. apply eps2_key_atoms; auto. cbn [lit]. ring.
+  Qed.
+
+  (** *** the derivative relation from the three-term recurrence and its formal derivative.
+      For a fixed order m (field value M) and point t:  Q k, dQ k are the values of q_{m,m+k} and of
+      its formal derivative, e k = eps(m, m+k), Lf k = m + k.  E k = (1-t^2) dQ k - M t Q k is the
+      value of D = (1-x^2) d/dx applied to y^m q (divided by y^m). *)
+  Variables (t M : F) (Q dQ e Lf : nat -> F).
+  Hypothesis HL0 : Lf 0%nat = M.
+  Hypothesis HLS : forall k, Lf (S k) = Lf k + 1.
+  Hypothesis He0 : e 0%nat = 0.
+  Hypothesis Hnz : forall k, e (S k) <> 0.
+  Hypothesis HR0 : e 1%nat * Q 1%nat = t * Q 0%nat.
+  Hypothesis HR : forall k, e (S (S k)) * Q (S (S k)) = t * Q (S k) - e (S k) * Q k.
+  Hypothesis HdQ0 : dQ 0%nat = 0.
+  Hypothesis HdR0 : e 1%nat * dQ 1%nat = Q 0%nat + t * dQ 0%nat.
+  Hypothesis HdR : forall k, e (S (S k)) * dQ (S (S k)) = Q (S k) + t * dQ (S k) - e (S k) * dQ k.
+  Hypothesis Hkey : forall k, 1 + ((1 + 1) * Lf k - 1) * (e k * e k) = ((1 + 1) * Lf k + 1 + 1 + 1) * (e (S k) * e (S k)).
+
+  Definition Ek (k : nat) : F := (1 - t * t) * dQ k - M * t * Q k.
+
+  Lemma deriv_one_sided : forall k,
+    Ek k = (Lf k + 1) * t * Q k - ((1 + 1) * Lf k + 1) * (e (S k) * Q (S k)) /\
+    Ek (S k) = (Lf (S k) + 1) * t * Q (S k) - ((1 + 1) * Lf (S k) + 1) * (e (S (S k)) * Q (S (S k))).
+  Proof.
+    induction k as [|k [IH0 IH1]].
+    - assert (A0 : Ek 0 = (Lf 0%nat + 1) * t * Q 0%nat - ((1 + 1) * Lf 0%nat + 1) * (e 1%nat * Q 1%nat)).
+      { unfold Ek. rewrite HR0, HdQ0, HL0. ring. }
+      split; [exact A0|].
+      apply (fmul_cancel_l (e 1%nat)); [apply Hnz|]. apply fsub0_inv.
+      pose proof (Hkey 0%nat) as K0. rewrite He0, HL0 in K0. rewrite HdQ0 in HdR0.
+      unfold Ek. rewrite HLS, HL0.
+      transitivity ((1 - t * t) * (e 1%nat * dQ 1%nat - (Q 0%nat + t * 0))
+                    + t * (e 1%nat * Q 1%nat - t * Q 0%nat)
+                    + ((1 + 1) * M + 1 + 1 + 1) * e 1%nat * (e 2%nat * Q 2%nat - (t * Q 1%nat - e 1%nat * Q 0%nat))
+                    + Q 0%nat * ((1 + ((1 + 1) * M - 1) * (0 * 0)) - ((1 + 1) * M + 1 + 1 + 1) * (e 1%nat * e 1%nat))).
+      { ring. }
+      rewrite (fsub0 _ _ HdR0), (fsub0 _ _ HR0), (fsub0 _ _ (HR 0%nat)), (fsub0 _ _ K0). ring.
+    - split; [exact IH1|].
+      apply (fmul_cancel_l (e (S (S k)))); [apply Hnz|]. apply fsub0_inv.
+      pose proof (Hkey (S k)) as K1. pose proof (HR k) as R1. pose proof (HR (S k)) as R2. pose proof (HdR k) as D1.
+      unfold Ek in *. rewrite !HLS in *.
+      set (l := Lf k + 1) in *.
+      transitivity ((1 - t * t) * (e (S (S k)) * dQ (S (S k)) - (Q (S k) + t * dQ (S k) - e (S k) * dQ k))
+                    - (M + l) * t * (e (S (S k)) * Q (S (S k)) - (t * Q (S k) - e (S k) * Q k))
+                    + t * (((1 - t * t) * dQ (S k) - M * t * Q (S k))
+                           - ((l + 1) * t * Q (S k) - ((1 + 1) * l + 1) * (e (S (S k)) * Q (S (S k)))))
+                    - e (S k) * (((1 - t * t) * dQ k - M * t * Q k)
+                                 - (l * t * Q k - ((1 + 1) * Lf k + 1) * (e (S k) * Q (S k))))
+                    + Q (S k) * ((1 + ((1 + 1) * l - 1) * (e (S k) * e (S k))) - ((1 + 1) * l + 1 + 1 + 1) * (e (S (S k)) * e (S (S k))))
+                    + ((1 + 1) * l + 1 + 1 + 1) * e (S (S k)) * (e (S (S (S k))) * Q (S (S (S k))) - (t * Q (S (S k)) - e (S (S k)) * Q (S k)))).
+      { unfold l. ring. }
+      rewrite (fsub0 _ _ D1), (fsub0 _ _ R1), (fsub0 _ _ IH1), (fsub0 _ _ IH0), (fsub0 _ _ K1), (fsub0 _ _ R2). apply zeros6.
+  Qed.
+
+  (** (1 - x^2) d/dx P_l = (l+1) eps_l P_{l-1} - l eps_{l+1} P_{l+1}   (P_{m-1} = 0) *)
+  Theorem deriv_relation_abstract k :
+    Ek k = (Lf k + 1) * (e k * (match k with O => 0 | S k' => Q k' end)) - Lf k * (e (S k) * Q (S k)).
+  Proof.
+    destruct (deriv_one_sided k) as [A _]. rewrite A. destruct k as [|k].
+    - rewrite He0, HR0. ring.
+    - cbv iota. transitivity (- (Lf (S k) + 1) * (e (S (S k)) * Q (S (S k)) - (t * Q (S k) - e (S k) * Q k))
+                    + ((Lf (S k) + 1) * (e (S k) * Q k) - Lf (S k) * (e (S (S k)) * Q (S (S k))))); [ring|].
+      rewrite (fsub0 _ _ (HR k)). ring.
+  Qed.
+End DerivRel.
